@@ -236,6 +236,37 @@ func (p *Prog) smtTextI(ob *Obligation, uses []string, reduced, ground, intAddr 
 	var sb strings.Builder
 	sb.WriteString("(set-logic ALL)\n")
 	fmt.Fprintf(&sb, "; obligation %s\n; pos %s\n", ob.Name, ob.Pos)
+	// spec files of every spec function that occurs are included automatically (core section)
+	{
+		have := map[string]bool{}
+		for _, u := range uses {
+			f := u
+			if i := strings.Index(u, ":"); i >= 0 {
+				f = u[:i]
+			}
+			have[f] = true
+		}
+		seenU := map[*Term]bool{}
+		var scanU func(t *Term)
+		scanU = func(t *Term) {
+			if seenU[t] {
+				return
+			}
+			seenU[t] = true
+			if t.Op == "uf" {
+				if f, ok := p.SpecFileOf[t.Name]; ok && !have[f] {
+					have[f] = true
+					uses = append(append([]string{}, uses...), f)
+				}
+			}
+			for _, a := range t.Args {
+				scanU(a)
+			}
+		}
+		for _, a := range asserts {
+			scanU(a)
+		}
+	}
 	done := map[string]bool{}
 	for _, u := range uses {
 		file, sec := u, ""
